@@ -173,6 +173,7 @@ func (r *run) note() {
 	mark("saw/single-frame-claim", c.SingleClaims)
 	mark("saw/noflush-one-frame-claim", c.NoFlushOne)
 	mark("saw/flush-with-nothing-written", c.EmptyFlushes)
+	mark("saw/flush-after-readfrom-failed-with-zero-bytes", c.FailedEmpty)
 	mark("saw/write-through", c.Throughs)
 	mark("saw/write-through-refused", c.Refused)
 	mark("saw/grow-with-buffered-bytes", c.GrowBuffered)
